@@ -99,7 +99,7 @@ def graphs(tier):
 
 
 def shards(tier):
-    return [("G", i) for i in range(NSHARDS)] + [("H", 0), ("H", 1), ("H", 2)]
+    return [("G", i) for i in range(NSHARDS)] + [("H", 0), ("H", 1), ("H", 2), ("H", 3)]
 
 
 ERRS = None
@@ -278,6 +278,8 @@ H_FILES = {
     # fx: a real function of P, displaced (once Q is loaded) by the dangling alias that `from Q import *` brings; P.x and P.y follow it, near and far
     "P/__init__.py": "def fx(): ...\nfrom Q import qx\nfrom Q import *\nfrom R import rx\ndef px(): ...\nfrom P.sub import *\n__all__ = ['px', 'qx', 'rx', 'sx', 'fx']\n",
     "P/x.py": "from P import fx\n",
+    # aliases in a submodule, and in a class of a submodule, whose package (Q) may only get loaded on demand by resolve_aliases(external=True)
+    "P/z.py": "from Q import qx as zq\nclass ZC:\n    from Q.inner import ix as zi\n",
     "P/y.py": "from P.x import fx\n",
     "P/sub.py": "from Q.inner import *\nfrom P import px as sx\n",
     "Q/__init__.py": "from P import px\nfrom P import *\nfrom R.deep import *\ndef qx(): ...\nfrom R import fx\n",
@@ -293,7 +295,10 @@ H3_FILES = {
     "P/__init__.py": "from Q import x\nfrom Q import missing_name\n", "P/sub.py": "from P import x as sx\n",
     "Q/__init__.py": "from S import *\nfrom T.deep import *\n", "S/__init__.py": "x = 1\nfrom U import *\n", "U/__init__.py": "u = 2\n",
 }
-FILESETS = [None, H2_FILES, H3_FILES]  # (index 0: H_FILES, defined above)
+# aliases that only live in a SUBMODULE (and in a class there) and point into a package nothing else refers to: it is loaded on demand by
+# resolve_aliases(external=True) in the middle of the resolution loop, whose next round has to come back to that submodule
+H4_FILES = {"P/__init__.py": "", "P/sub.py": "from Q import thing\nclass K:\n    from Q import thing as kt\n    from R import gone as kg\n", "Q/__init__.py": "def thing(): ...\n"}
+FILESETS = [None, H2_FILES, H3_FILES, H4_FILES]  # (index 0: H_FILES, defined above)
 H_OPS = [("load", "P"), ("load", "Q"), ("load", "P.sub"), ("load", "R")] + [("resolve", i, e) for i in (False, True) for e in (None, False, True)]
 
 
